@@ -1,4 +1,4 @@
 (* Extraction of the allocation model for the C13 event-trace tie (ExtrOcamlBasic only; N and nat stay Coq's datatypes). *)
 Require Import ExtrOcamlBasic.
-From ZV.Mem Require Import AllocDsl AllocInstances AllocGen AllocLegacy.
-Extraction "Extract/out/c13model.ml" run_ops_gen formulas_agree run_lops.
+From ZV.Mem Require Import AllocDsl AllocInstances AllocGen AllocLegacy AllocBorrow.
+Extraction "Extract/out/c13model.ml" run_ops_gen formulas_agree run_lops run_bops.
